@@ -365,6 +365,11 @@ def nodes_from_zero(q1, ls):
     return out
 
 
+# the class's pdf is meant for distances: it is not defined (or not symmetric)
+# for negative arguments, so its cdf is 1/2 + sign(q) * integral over [0, |q|]
+HALF_LINE_SYMMETRIC = {"exponential_power"}
+
+
 class CdfRequest:
     """Numerical cdf of the implementation's pdf at the given points (the pdf is
     integrated from the lower end of the support: -infinity for the kernels that
@@ -372,12 +377,15 @@ class CdfRequest:
 
     def __init__(self, kernel, scale, shape, points):
         self.kernel, self.scale, self.shape = kernel, scale, shape
-        self.points = sorted(set(p for p in points if p == p and abs(p) != float("inf")))
+        self.fold = kernel in HALF_LINE_SYMMETRIC
+        self.orig = [p for p in points if p == p and abs(p) != float("inf")]
+        pts = [abs(p) for p in self.orig] if self.fold else self.orig
+        self.points = sorted(set(pts))
         self.segments = []
         ls = length_scale(kernel, scale, shape)
         if self.points:
             p0 = self.points[0]
-            if kernel in TWO_SIDED:
+            if kernel in TWO_SIDED and not self.fold:
                 A = min(p0, 0.0) - 8 * ls
                 self.segments.append(nodes_minus_infinity(A) + nodes_resolved(A, p0, ls))
             else:
@@ -402,6 +410,8 @@ class CdfRequest:
                     s += w * v
             acc += s
             out[p] = acc
+        if self.fold:
+            out = {q: 0.5 + math.copysign(out[abs(q)], q) for q in self.orig}
         self.values = out
 
 
